@@ -1050,6 +1050,80 @@ def gen_stdsig():
 PARTS["stdsig"] = gen_stdsig
 
 
+# ----------------------------------------------------------------------------- lock shape (C16)
+
+def fn_tokens(toks, name):
+    """tokens of the body of `fn <name>` (first occurrence), or None"""
+    for i in range(len(toks) - 1):
+        if toks[i] == "fn" and toks[i + 1] == name:
+            j = i
+            while toks[j] != "{":
+                if toks[j] in ("(", "<", "["):
+                    j = match_close(toks, j) if toks[j] != "<" else j
+                j += 1
+            return toks[j + 1:match_close(toks, j)]
+    return None
+
+
+def count_calls(toks, method):
+    return sum(1 for i in range(len(toks) - 2) if toks[i] == "." and toks[i + 1] == method and toks[i + 2] == "(")
+
+
+def gen_lockshape():
+    import glob
+    asrc = read("src/instruction/bin_op/assign.rs")
+    toks = lex(asrc)
+    fns = []
+    for name, tail in (("exec", ""), ("try_exec", "?")):
+        body = fn_tokens(toks, name)
+        if body is None:
+            raise TranslateError("assign.rs: fn %s not found" % name)
+        text = " ".join(body)
+        # the guard is taken once, and the read of the old value and the store both go through it
+        m = re.search(r"let mut (\w+) = (\w+) \. variable \. write \( \) \. unwrap \( \) ;", text)
+        guard = m.group(1) if m else None
+        rmw = False
+        if guard:
+            pat = r"\* %s = function \( %s \. clone \( \) , rhs \)%s ;" % (guard, guard, (" \\?" if tail else ""))
+            rest = text[m.end():]
+            m2 = re.search(pat, rest)
+            rmw = bool(m2) and ("drop (" not in rest[:m2.start()] if m2 else False)
+        fns.append((name, count_calls(body, "read"), count_calls(body, "write"), rmw))
+    sites = []
+    srcs = {}
+    for path in sorted(glob.glob(os.path.join(REPO, "src", "**", "*.rs"), recursive=True)):
+        rel = os.path.relpath(path, REPO)
+        if rel == "src/verif.rs":
+            continue
+        text = read(rel)
+        t = lex(text)
+        # the in-crate monitor's own uses are guarded by cfg(feature = "verif") and live in src/verif.rs
+        r, w = count_calls(t, "read"), count_calls(t, "write")
+        other = sum(count_calls(t, mth) for mth in ("try_read", "try_write", "lock", "try_lock", "wait", "get_mut"))
+        prim = sum(1 for x in t if x in ("Mutex", "Condvar", "RwLock", "AtomicBool", "AtomicUsize", "AtomicU64", "AtomicI64", "UnsafeCell", "RefCell", "Cell", "static"))
+        uns = sum(1 for x in t if x == "unsafe")
+        if r or w or other or uns or (prim and "RwLock" in t or "Mutex" in t or "RefCell" in t or "UnsafeCell" in t):
+            sites.append((rel, r, w, other, uns))
+            srcs[rel] = text
+    lines = ["-- GENERATED by tools/translate.py from /repo (do not edit).",
+             "-- sources: " + ", ".join("%s@%s" % (k, sha(v)) for k, v in sorted(srcs.items())),
+             "namespace Ssl.Gen", "",
+             "/-- `assign::exec` / `assign::try_exec`: name, `.read()` calls, `.write()` calls, and whether the old value is read and the",
+             "    new one stored through the one write guard (`*g = function(g.clone(), rhs)`) -/",
+             "def assignLockFns : List (String × Nat × Nat × Bool) := [" +
+             ", ".join("(%s, %d, %d, %s)" % (lstr(n), r, w, "true" if b else "false") for n, r, w, b in fns) + "]",
+             "",
+             "/-- every source file (outside the verification hook) that takes a lock, uses another synchronisation primitive or `unsafe`:",
+             "    file, `.read()`, `.write()`, other lock-like calls, `unsafe` tokens -/",
+             "def lockSites : List (String × Nat × Nat × Nat × Nat) := [" +
+             ", ".join("(%s, %d, %d, %d, %d)" % (lstr(f), r, w, o, u) for f, r, w, o, u in sites) + "]",
+             "", "end Ssl.Gen", ""]
+    return write_if_changed("LockShape.lean", "\n".join(lines))
+
+
+PARTS["lockshape"] = gen_lockshape
+
+
 def main(argv):
     global REPO, OUT
     args = list(argv)
